@@ -4,7 +4,7 @@ import json
 import os
 
 V = os.path.dirname(os.path.dirname(os.path.abspath(__file__)))
-HOOK_COMMITS = ["9b615ed", "0f2a307", "ccdb599"]
+HOOK_COMMITS = ["9b615ed", "0f2a307", "ccdb599", "d17c727"]
 
 CHECKS = {
  "C01": dict(
@@ -208,6 +208,22 @@ CHECKS = {
        "results only crash freedom is decided; IEEE accuracy and exact wrap-around values are outside TLC's arithmetic. Harness "
        "and binary are built with overflow checks on.",
   technique="TLA+ reference parser / evaluator; TLC-enumerated expressions and strings replayed in-process and through the binary"),
+ "C16": dict(
+  category="model_checking",
+  text="The five entry points are modelled as pre-processing pipelines in front of the reference reader (spec/Entry.tla); the "
+       "script path's positional-parameter pass is modelled twice: 'rerender' (the pinned tokenize / re-render round trip, kept as "
+       "a negative control that TLC must refute) and 'splice' (the repaired in-place substitution). TLC checks for every argument "
+       "text up to length 2 (thorough 3) in every quoting style, position and operator context that each entry point reads the "
+       "line as -c does (spec/MCEntry.tla), and for every positional reference x quote context x neighbour word with escapes x "
+       "argument values that the pass yields exactly the directly written expectation (spec/MCEntryArgs.tla, 18 942 cases). "
+       "Binding: the lines of the C01 / C03 / C04 / C10 / C11 / C12 generators (their TLC models) go through the real expand_args "
+       "and the real tokenizer in-process (every line), and a stratified sample (thorough: every line) runs through -c, a script "
+       "file, a function body and a sourced file, plus a sample typed at a pseudo-terminal prompt; helper logs (argv, stdin), "
+       "output, files and status are compared pairwise with the -c run. The MCEntryArgs cases run as scripts with arguments.",
+  design_ref="DESIGN.md 3.11, 6 (C16)",
+  note="Trusted: TLC, helper programs; at the prompt the output streams are the terminal and are not compared (argv, files, status "
+       "are); lines with control characters, !! or a trailing backslash are not typed at the prompt; $$ is normalised.",
+  technique="TLA+ model of the entry pipelines checked by TLC (incl. negative control); TLC-generated lines replayed through the five entry points of the binary and compared with -c"),
  "C06": dict(
   category="model_checking",
   text="TLC explores every interleaving of child status changes (with Linux's report coalescing), foreground-wait iterations, "
